@@ -97,6 +97,27 @@ var Corpus = []CorpusEntry{
 	{`$['a','b'].g()`, 2, `{"a":1,"b":2}`, `{}`},
 	{`$.*`, 2, `{"b":2,"a":1}`, `[]`},
 	{`$[?(@.a == 1)].a`, 2, `[{"a":1},{"a":2}]`, `[{"a":2}]`},
+	// (appended: indices above are referred to by number below)
+	{`$[-2:]`, 0, `[1,2,3]`, `{}`},
+	{`$[-3:-1]`, 0, `[1,2,3,4]`, `[1]`},
+}
+
+// CorpusD3: for some entries, another document (of a different size) on which the path also succeeds.
+var CorpusD3 = map[string]string{
+	`$[-2:]`:   `[4,5]`,
+	`$[-3:-1]`: `[5,6,7]`,
+	`$.*`: `{"c":3,"b":2,"a":1}`,
+	`$..*`: `[{"x":{"y":1}}]`,
+	`$[0:2]`: `[7]`,
+	`$[::-1]`: `[8,9]`,
+	`$[0,1,0]`: `[5]`,
+	`$[*,*]`: `[3]`,
+	`$[0,1:2,*]`: `[4,5,6]`,
+	`$[?(@.a)]`: `{"k":{"a":1},"j":{"a":2},"i":{"a":3}}`,
+	`$[?(@.a == 1)]`: `[{"a":2},{"a":1},{"a":1}]`,
+	`$[?(@.a || @.b)]`: `[{"b":2}]`,
+	`$.*.g()`: `[9]`,
+	`$[?(@.*.cnt() == 2)]`: `[[3,4]]`,
 }
 
 // ParseCorpus: (path, config) pairs for Parse operations, including failing ones.
@@ -302,6 +323,17 @@ func Scenarios(tier string) []Scenario {
 	for _, c := range Corpus {
 		out = append(out, Scenario{
 			Name: "S2 shared " + c.Path, Fns: []FnSpec{{c.Path, c.Cfg}}, Docs: []string{c.D1, c.D2},
+			Threads: [][]Op{{call(0, 0)}, {call(0, 1)}},
+		})
+	}
+	// S2b: one shared function on two documents of different sizes on which it succeeds
+	for _, c := range Corpus {
+		d3, ok := CorpusD3[c.Path]
+		if !ok || c.Cfg == 2 {
+			continue
+		}
+		out = append(out, Scenario{
+			Name: "S2b shared " + c.Path + " (both succeed)", Fns: []FnSpec{{c.Path, c.Cfg}}, Docs: []string{c.D1, d3},
 			Threads: [][]Op{{call(0, 0)}, {call(0, 1)}},
 		})
 	}
